@@ -115,6 +115,20 @@ def step (σ : St) (op obs : List String) : St × List Msg :=
     let want := σ.implInForce.getD "-"
     let pf := if id = want then [] else inForceFail σ s!"the status API must serve {want}, observed" id
     (σ, d ++ pf ++ [.tag (if σ.lastFailed then "status:after-rejected" else "status:after-accepted")])
+  | ["astatus", name], [tg, sc] =>
+    -- the status callback of the API (app/reloader.go): both muters are asked, each records its own verdict:
+    -- silencedBy is the brute-force list of active matching silences (C02) whether or not the alert is also inhibited (C03)
+    let pf : List Msg :=
+      (match ((tg.splitOn "=").getD 1 "").splitOn ":" with
+       | [state, silOk, nInh] =>
+         (if silOk = "1" then [] else [Msg.propfail "mutes_eq_bruteforce" "api-status-silencedBy"
+            s!"alert {name} role=tgt matches an active silence created for it, GET /api/v2/alerts reports it as {state} without that silence id (inhibitedBy: {nInh})"])
+         ++ (if nInh ≠ "0" then [] else [Msg.propfail "status_reports_a_real_inhibitor" "api-status-inhibitedBy"
+            s!"alert {name} role=tgt is the target of a rule whose source alert fires, GET /api/v2/alerts reports it as {state} with no inhibiting alert"])
+       | _ => [Msg.diff "astatus.tgt" "state:sil:inh" tg])
+      ++ (if sc = "src=active:0:0" then [] else [Msg.propfail "mutes_eq_bruteforce" "api-status-unsuppressed"
+            s!"alert {name} role=src is neither silenced nor inhibited, GET /api/v2/alerts reports {sc}"])
+    (σ, expectEq "astatus.tgt" "tgt=suppressed:1:1" tg ++ expectEq "astatus.src" "src=active:0:0" sc ++ pf ++ [.tag "astatus"])
   | ["stop"], [r] => (σ, expectEq "stop" "ok" r)
   | _, _ => (σ, [.diff "parse" "?" (" ".intercalate op ++ " -> " ++ " ".intercalate obs)])
 
